@@ -42,15 +42,20 @@ func treeIDDump(id *crdt.TreeNodeID) string {
 	return fmt.Sprintf("%s/%d", tk(id.CreatedAt), id.Offset)
 }
 
-func dumpElem(sb *strings.Builder, e crdt.Element, ind string) {
+func dumpElem(sb *strings.Builder, e crdt.Element, ind string, member bool) {
 	if e == nil {
 		sb.WriteString(ind + "<nil>\n")
 		return
 	}
 	// movedAt is only ever read through crdt.PositionedAt (movedAt, else
-	// createdAt), so an absent movedAt and one equal to createdAt are the
-	// same value; the dump shows the positioning ticket.
-	hdr := fmt.Sprintf("c=%s p=%s r=%s", tk(e.CreatedAt()), tk(crdt.PositionedAt(e)), tk(e.RemovedAt()))
+	// createdAt) and only for object members (the last-writer-wins race of a
+	// key), so an absent movedAt and one equal to createdAt are the same
+	// value and the movedAt of an array element is dead data; the dump shows
+	// the positioning ticket of object members.
+	hdr := fmt.Sprintf("c=%s r=%s", tk(e.CreatedAt()), tk(e.RemovedAt()))
+	if member {
+		hdr = fmt.Sprintf("c=%s p=%s r=%s", tk(e.CreatedAt()), tk(crdt.PositionedAt(e)), tk(e.RemovedAt()))
+	}
 	switch v := e.(type) {
 	case *crdt.Object:
 		fmt.Fprintf(sb, "%sobj %s\n", ind, hdr)
@@ -63,7 +68,7 @@ func dumpElem(sb *strings.Builder, e crdt.Element, ind string) {
 		})
 		for _, n := range nodes {
 			fmt.Fprintf(sb, "%s .%s:\n", ind, n.Key())
-			dumpElem(sb, n.Element(), ind+"  ")
+			dumpElem(sb, n.Element(), ind+"  ", true)
 		}
 	case *crdt.Array:
 		fmt.Fprintf(sb, "%sarr %s\n", ind, hdr)
@@ -73,7 +78,7 @@ func dumpElem(sb *strings.Builder, e crdt.Element, ind string) {
 				continue
 			}
 			fmt.Fprintf(sb, "%s [pos=%s moved=%s]\n", ind, tk(n.PositionCreatedAt()), tk(n.PositionMovedAt()))
-			dumpElem(sb, n.Element(), ind+"  ")
+			dumpElem(sb, n.Element(), ind+"  ", false)
 		}
 	case *crdt.Primitive:
 		fmt.Fprintf(sb, "%sprim %s t=%d v=%s\n", ind, hdr, v.ValueType(), v.Marshal())
@@ -105,7 +110,7 @@ func dumpElem(sb *strings.Builder, e crdt.Element, ind string) {
 // dump returns the physical dump of an element.
 func dump(e crdt.Element) string {
 	var sb strings.Builder
-	dumpElem(&sb, e, "")
+	dumpElem(&sb, e, "", true)
 	return sb.String()
 }
 
